@@ -72,6 +72,7 @@ func runCheck(args []string) int {
 	cfg := symx.Config{Solver: solverName(), TimeoutMs: 10000, Unwind: 64, ConcCap: 16, Preempt: 1, MaxSteps: 20000000, Seed: seed, Verbose: verbose}
 	cfg.MaxWallS = 300 // per harness; every quick harness finishes in < 150 s on the unchanged tree
 	if tier == "thorough" {
+		nativeTier = "1"
 		cfg.Tier = 1
 		cfg.TimeoutMs = 60000
 		// the default preemption bound stays 1 (harnesses that are about schedules raise it themselves
@@ -655,6 +656,9 @@ func TestVerifValidate(t *testing.T) {
 // inside an empty chroot: counterexamples of the confinement properties make the real code
 // create, chmod or remove files outside its destination, which must not reach the machine.
 // The statically linked test binary, the input file and a /tmp are all the jail contains.
+// nativeTier is handed to native replays and validation runs so that vTier() answers as in the engine.
+var nativeTier = "0"
+
 func runJailed(dir, overlay, runPat, envName, inputFile string, timeoutS int) string {
 	jail, err := os.MkdirTemp("", "verif-jail-")
 	if err != nil {
@@ -677,7 +681,7 @@ func runJailed(dir, overlay, runPat, envName, inputFile string, timeoutS int) st
 	in, _ := os.ReadFile(inputFile)
 	os.WriteFile(filepath.Join(jail, "input.json"), in, 0644)
 	cmd := exec.Command("timeout", strconv.Itoa(timeoutS), "/usr/sbin/chroot", jail, "/harness.test", "-test.v", "-test.count=1", "-test.run", runPat)
-	cmd.Env = []string{envName + "=/input.json", "TMPDIR=/tmp", "HOME=/tmp", "PATH=/", "VERIF_JAIL=1"}
+	cmd.Env = []string{envName + "=/input.json", "TMPDIR=/tmp", "HOME=/tmp", "PATH=/", "VERIF_JAIL=1", "VERIF_NATIVE_TIER=" + nativeTier}
 	out, _ := cmd.CombinedOutput()
 	return string(out)
 }
